@@ -203,6 +203,11 @@ def catalogue_events(ctx, rng):
                     pass
             if xbytes(op.domain, x) != xb:      # the result aliases the input: restore x for the second call
                 x = L.unflat(op.domain, np.frombuffer(xb, dtype=complex))
+            # history: a call on ANOTHER input in between (cached temporaries / plans must not leak into the next result)
+            try:
+                op(C.random_point(op.domain, rng))
+            except Exception:
+                pass
             y1 = op(x)
             ev['dist'] = dist(op, y1, y0_keep, unit)
             y0 = y0_keep
